@@ -563,8 +563,8 @@ func init() {
 		ID: "C13", Title: "Bus routing follows Attach exactly and EaDump agrees with byte-wise reads", Level: "model_checking",
 		Patterns:         []string{"verif/harness/c13"},
 		Jobs:             c13Jobs,
-		Bounds:           []string{"up to three successful Attach calls with ranges drawn from 8 aligned ranges inside a 512-byte window (overlapping, adjacent, nested, re-attached, single-segment, with holes): all 9^3 layouts in the thorough tier, all 9^2 two-attach layouts plus a sample of three-attach ones in the quick tier", "routing: read and write address symbolic over the whole window; misaligned Attach: start and end fully symbolic 24-bit values", "EaDump: start anywhere in a chosen segment, end anywhere in a segment 0-3 (thorough 0-4) segments later (both low nibbles symbolic), every starting segment of the window that keeps the range inside it", "the three-byte read EaRead24_wrap at a symbolic address of the window for every layout of the routing jobs"},
-		Outside:          []string{"more than three Attach calls; windows other than $0F00-$10FF (the segment table is indexed uniformly; argued)", "dump ranges longer than 5 segments"},
+		Bounds:           []string{"up to three successful Attach calls with ranges drawn from 8 aligned ranges inside a 512-byte window (overlapping, adjacent, nested, re-attached, single-segment, with holes): all 9^3 layouts in the thorough tier, all 9^2 two-attach layouts plus a sample of three-attach ones in the quick tier", "routing: read and write address symbolic over the whole window; misaligned Attach: start and end fully symbolic 24-bit values", "EaDump: start anywhere in a chosen segment, end anywhere in a segment 0-3 segments later (both low nibbles case-split, 256 paths per job), every third starting segment of the window, 11 layouts (thorough 17)", "an access, a dump and another access on one bus; a second read at an independent address after every routing job; the library's RAM and ROM devices behind the bus, a RAM of 128 KiB", "the three-byte read EaRead24_wrap at a symbolic address of the window for every layout of the routing jobs"},
+		Outside:          []string{"more than three Attach calls; windows other than $0F00-$10FF (the segment table is indexed uniformly; argued)", "dump ranges longer than 4 segments"},
 		Explanation:      "probe memories record every access (count, full address, value); the harness computes the owner of each 16-byte segment from the attach order and compares",
 		ConformanceQuick: 48, ConformanceThorough: 400,
 	})
@@ -610,7 +610,7 @@ func init() {
 		ID: "C16", Title: "Emitting through Clone and Append is equivalent to emitting directly", Level: "model_checking",
 		Patterns: []string{"verif/harness/c16"}, PermuteMaps: false,
 		Jobs:             c16Jobs,
-		Bounds:           []string{"call sequences of at most 3 (thorough 4) calls from a 12-entry alphabet (instructions with symbolic operands, SEP/REP with symbolic masks, two labels, relative and absolute references to them, data, comments, a width-guarded immediate), every split point, base unset/symbolic, listing on/off, tracked flags symbolic", "Append at capacities from ample to 3 bytes short"},
+		Bounds:           []string{"call sequences of at most 3 calls (thorough: plus every 16th sequence of 4 calls, and all four base/listing settings for the shorter ones) from a 12-entry alphabet (instructions with symbolic operands, SEP/REP with symbolic masks, two labels, relative and absolute references to them, data, comments, a width-guarded immediate), every split point, base unset/symbolic, listing on/off, tracked flags symbolic", "Append at capacities from ample to 3 bytes short"},
 		Outside:          []string{"longer sequences; more than two labels", "map iteration order inside Clone/Append/Finalize is taken in insertion order here (all orders are explored in C06)"},
 		Explanation:      "differential: the same real code fed directly vs. through Clone+Append; all observable getters, the text listing and the Finalize result are compared",
 		ConformanceQuick: 48, ConformanceThorough: 400,
@@ -877,8 +877,16 @@ func c16Jobs(tier string) []sym.Job {
 			js = append(js, job("c16", "Split", fmt.Sprintf("c16/seq-%s/split%d/base%d/listing%d", name, split, base, listing), prog, int64(len(ops)), int64(split), int64(base), int64(listing)))
 		}
 	}
+	nseq4 := 0
 	rec = func(ops []int) {
-		if len(ops) > 0 {
+		if len(ops) == 4 {
+			// thorough tier: every 16th of the ~20 000 four-call sequences (all of them would be
+			// 100 000 jobs and two and a half hours for no new code path)
+			nseq4++
+			if nseq4%16 == 0 {
+				emit(ops)
+			}
+		} else if len(ops) > 0 {
 			emit(ops)
 		}
 		if len(ops) == k {
@@ -947,18 +955,23 @@ func c13Jobs(tier string) []sym.Job {
 	dumpLayouts := []int{0, 1, 2, 3, 4, 5, 1 + 9*4, 2 + 9*3, 4 + 9*5, 2 + 9*3 + 81*8, 5 + 9*7 + 81*6}
 	maxSeg := 3
 	if tier == "thorough" {
-		maxSeg = 4
-		for l := 0; l < 81; l += 5 {
+		// six more layouts than the quick tier (each dump job has 256 paths; a first sizing with 28
+		// layouts, spans of up to 5 segments and every start segment did not finish in three hours
+		// including the cross-solver pass)
+		for l := 0; l < 81; l += 15 {
 			dumpLayouts = append(dumpLayouts, l+81*((l/5)%9))
 		}
 	}
 	for _, l := range dumpLayouts {
 		for nseg := 0; nseg <= maxSeg; nseg++ {
 			for seg0 := 6; seg0+nseg <= 25; seg0 += 1 {
-				if tier != "thorough" && seg0%3 != (l+nseg)%3 {
+				if seg0%3 != (l+nseg)%3 {
 					continue
 				}
 				js = append(js, job("c13", "Dump", fmt.Sprintf("c13/dump/layout%03d/seg%02d+%d", toBase9(l), seg0, nseg), int64(l), int64(seg0), int64(nseg)))
+				if nseg >= 1 {
+					js = append(js, job("c13", "AfterDump", fmt.Sprintf("c13/access-after-dump/layout%03d/seg%02d+%d", toBase9(l), seg0, nseg), int64(l), int64(seg0), int64(nseg)))
+				}
 			}
 		}
 	}
